@@ -1,5 +1,5 @@
 import Restic.Model.LockRefresh
--- import Restic.Props.C12
+import Restic.Props.C12
 import Restic.Gen.Source
 import Restic.Gen.Consts
 /-!
@@ -185,6 +185,11 @@ theorem unlock_on_exit (P : Params) (s s' : St) (st : step P s .rlExit = some s'
   split at st
   · rename_i hg; cases st; exact ⟨hg.1, rfl, rfl⟩
   · cases st
+
+/-- **refresh_no_gap**: proved on the protocol model of C12 (refresh = create the replacement, then
+    remove the old file; T1 fact `C12.t1_refresh_create_before_remove`): a holder — also in the middle
+    of a refresh — always has a lock file of its own in the repository, and that file is fresh. -/
+theorem refresh_no_gap := @Restic.Props.C12.holder_has_fresh_file
 
 /-! ### Negation witness for the select as it is in restic 0.18 (`fixed = false`)
 
